@@ -1676,7 +1676,10 @@ func (d *Data) GetLabelBytesAtPoint(v dvid.VersionID, pt dvid.Point) ([]byte, er
 		return nil, fmt.Errorf("Can't determine block of point %s", pt)
 	}
 	blockSize := d.BlockSize()
-	bcoord := coord.Chunk(blockSize).(dvid.ChunkPoint3d)
+	bcoord, ok := coord.Chunk(blockSize).(dvid.ChunkPoint3d)
+	if !ok {
+		return nil, fmt.Errorf("point %s is not a 3d point", pt)
+	}
 
 	labelData, err := d.GetLabelBytes(v, bcoord)
 	if err != nil {
